@@ -112,7 +112,7 @@ int main(void)
         if(has_w1) VASSERTM(vp_prepare(W1) == PARSEC_HOOK_RETURN_AGAIN, "second writer gets AGAIN while a reader inserted before it has not completed");
         int j = IN_RANGE(1, 3);
         VASSUME(j <= r);
-        for(int k = 1; k <= 3; k++) if(k == j) {
+        for(int k = 1; k <= 3; k++) if(k == j && k <= r) {
             VASSUME(!done[k]);
             VASSERTM(vp_prepare(k) == PARSEC_HOOK_RETURN_DONE, "a reader is never gated (readers may overlap)");
             VASSERTM(VT(k).t.super.data[0].data_in == &CP(0) && VAL[0] == 1, "reader sees the first writer's value");
